@@ -186,3 +186,45 @@ def in_exception_handler_scope(repo: Repo, fi: FuncInfo, node: ast.AST, classes=
 
 def _contains(tree: ast.AST, node: ast.AST) -> bool:
     return any(x is node for x in ast.walk(tree))
+
+
+def close_effects(repo: Repo, fi: FuncInfo, force: tuple[str, ...] = (f"{GB}.ChannelFactory._local_close",)) -> list[dict]:
+    """What a function does to a channel's receiving side, read off the value-term event trace of its normal form with
+    the close transition inlined (`force`; helpers that are not in the census are inlined anyway): one summary per
+    path that releases the waiters (`<chan>._receiveclosed.set()`), whatever functions the steps live in.
+
+      id          the term the channel was looked up with (`self._channels.get(<id>)`)
+      closed      `<chan>._closed = True` is stored on the path
+      unregistered `_no_longer_opened(<id>)` is called
+      endmarker   ENDMARKER is put on `<chan>._items` (None when the path established that there is no queue)
+      error       the value appended to `<chan>._remoteerrors` (or None)
+      order_ok    nothing of the above happens after the waiters were released
+    """
+    from ..terms import NONE, evaluator, tv
+    try:
+        mf = repo.merged(fi.qualname, [q for q in force if q != fi.qualname and repo.has_func(q)])
+    except Exception:
+        mf = fi
+    ev = evaluator(repo, mf)
+    heads = {n.id for n in ev.cfg.nodes if n.kind in ("test", "for") and isinstance(n.owner, (ast.While, ast.For))}
+    out = []
+    for (pth, st) in ev.run(back_stops=heads, limit=40000):
+        sets = [e for e in st.events if e.kind == "call" and e.attr == "set" and e.recv is not None and e.recv[0] == "attr" and e.recv[2] == "_receiveclosed"]
+        for s_ in sets:
+            chan = s_.recv[1]
+            look = [e for e in st.events if e.kind == "call" and e.result == chan and e.attr in ("get", "pop")]
+            idt = look[0].args[0] if look and look[0].args else None
+            known = dict(st.cond)
+            k = st.events.index(s_)
+            before, after = st.events[:k], st.events[k + 1:]
+            closed = any(e.kind == "assign" and str(e.target).endswith("._closed") and e.value == ("const", True) for e in before + after)
+            unreg = any(e.kind == "call" and (e.attr == "_no_longer_opened" or str(e.callee or "").endswith("_no_longer_opened")) and e.args[:1] == ((idt,) if idt is not None else e.args[:1])
+                        for e in before + after)
+            noq = tv(("cmp", "is", ("attr", chan, "_items"), NONE), known) is True
+            put = any(e.kind == "call" and e.attr == "put" and e.recv == ("attr", chan, "_items") and e.args[:1] == (("sym", "ENDMARKER"),) for e in before)
+            err = [e.args[0] for e in before if e.kind == "call" and e.attr == "append" and e.recv == ("attr", chan, "_remoteerrors") and e.args]
+            late = [e for e in after if (e.kind == "assign" and str(e.target).endswith("._closed")) or
+                    (e.kind == "call" and (e.attr in ("put", "_no_longer_opened") or str(e.callee or "").endswith("_no_longer_opened")))]
+            out.append({"id": idt, "chan": chan, "closed": closed, "unregistered": unreg, "endmarker": None if noq else put, "error": err[-1] if err else None,
+                        "order_ok": not late, "node": s_.node, "state": st, "path": pth, "cfg": ev.cfg})
+    return out
